@@ -24,6 +24,12 @@ def long_vectors(path, seed, n, maxlen):
         # clr: a Clear code after every clr-th code.  97 keeps the width at 9 bits; 300 and 1100 put the Clear where the
         # width is already 10 / 12 bits (the decoder must fall back to 9 bits for the very next code)
         evs.append({"data": d, "early": k % 2, "clr": (300, 97, 1100, 0)[k % 4]})
+    # short streams whose LAST data code is the first code after a Clear (the decoder's "no previous code" branch): the
+    # initial Clear of a one-byte stream, and a Clear placed right in front of the last code
+    for early in (0, 1):
+        evs.append({"data": [65], "early": early, "clr": 0})
+        evs.append({"data": [65, 66, 67], "early": early, "clr": 2})
+        evs.append({"data": [1, 2, 3, 4, 5, 6, 7], "early": early, "clr": 6})
     vlib.write_ndjson(path, evs)
 
 
